@@ -42,8 +42,28 @@ def _copy_tree(dst: Path) -> None:
     shutil.copytree(src, dst / "xdsl", ignore=shutil.ignore_patterns("__pycache__", "*.pyc"))
 
 
+def _twin_worker(arg) -> tuple[int, list, list[str]]:
+    """one metamorphic twin: copy the analysed tree, rewrite it, run the property's rules on it (separate process)"""
+    import importlib
+
+    from .metamorph import rewrite_tree
+
+    tname, tmp, prop, modname = arg
+    mt = Path(tmp) / f"mm_{tname}"
+    mt.mkdir()
+    try:
+        _copy_tree(mt)
+        nfiles = rewrite_tree(tname, mt)
+        got, errs = _run(importlib.import_module(modname), mt, prop)
+        return nfiles, sorted(got), errs
+    except AnalysisError as e:
+        return 0, [], [f"{tname}: {e}"]
+    finally:
+        shutil.rmtree(mt, ignore_errors=True)
+
+
 def run_for(prop: str, mod, rep: Report) -> None:
-    r = rep.rule(f"{prop}.selftest", "checker tested both ways: silent on a behaviour-preserving re-emission of every source file; fires on every seeded change kept for this property")
+    r = rep.rule(f"{prop}.selftest", "checker tested both ways: silent on a behaviour-preserving re-emission of every source file and on 14 metamorphic rewrites of every function (renamed locals, inverted / nested / flattened conditionals, walrus in and out, De Morgan, return temporaries, guard clauses, conditional expressions vs statements, comprehensions vs loops, match vs if-chain, swapped comparisons, any() vs flag loop); fires on every seeded change kept for this property")
     base = _idents(rep)
     tmp = Path(tempfile.mkdtemp(prefix="xsa_selftest_"))
     try:
@@ -67,6 +87,28 @@ def run_for(prop: str, mod, rep: Report) -> None:
         else:
             extra, lost = sorted(got - base), sorted(base - got)
             raise AnalysisError(f"self-test: the rules are sensitive to formatting: extra findings {extra[:3]}, lost findings {lost[:3]} on a behaviour-preserving re-emission")
+        # ---- metamorphic twins: behaviour-preserving syntactic rewrites of every function (xsa/metamorph.py).  A finding
+        # that appears or disappears on such a twin means a recogniser reads spelling, not meaning.
+        from .metamorph import TRANSFORMS, rewrite_tree
+
+        names = [t for t in TRANSFORMS if t != "identity"]
+        import concurrent.futures as _cf
+        import multiprocessing as _mp
+
+        with _cf.ProcessPoolExecutor(max_workers=min(len(names), max(1, (os.cpu_count() or 2) // 2)), mp_context=_mp.get_context("fork")) as ex:
+            results = list(ex.map(_twin_worker, [(tname, str(tmp), prop, mod.__name__) for tname in names]))
+        for tname, (nfiles, got_l, errs) in zip(names, results):
+            got = {tuple(x) for x in got_l}
+            extra, lost = sorted(got - base), sorted(base - got)
+            if extra:
+                raise AnalysisError(f"self-test: the rules are sensitive to the behaviour-preserving rewrite `{tname}`: extra findings {extra[:3]}")
+            if errs or lost:
+                # not a false alarm, but the rewrite is not decided: recorded, not fatal (exit code unchanged)
+                r.notes.append(f"metamorphic twin `{tname}`: not decided ({(errs or lost)[:1]})")
+                r.ok(f"metamorphic:{tname}", f"{nfiles} files rewritten with `{tname}`: no extra finding (undecided: {len(errs)} analysis errors, {len(lost)} findings not reproduced)")
+            else:
+                r.ok(f"metamorphic:{tname}", f"{nfiles} files rewritten with `{tname}`: identical findings ({len(base)})")
+        rep.extra["selftest_metamorphic_twins"] = len(TRANSFORMS) - 1
         # ---- seeded variants
         seeds = []
         if SEEDED.is_dir():
